@@ -2514,10 +2514,7 @@ setattr_trait(
         }
 
         if (!changed) {
-            /* Compare with the object that is going to be stored (which, for
-               traits that store the original value, is not the validated
-               one), so that re-assigning the identical object is no change. */
-            changed = (old_value != new_value);
+            changed = (old_value != value);
         }
     }
 
@@ -2543,7 +2540,14 @@ setattr_trait(
                     : value);
         }
 
-        if ((rc == 0) && do_notifiers) {
+        /* For traits that store the original rather than the validated
+           value, "changed" compares the old value with the validated one (a
+           fresh adapter or code object), so post_setattr above still
+           refreshes the shadow value; but re-assigning the identical object
+           is not a change to notify unless comparison mode is "none". */
+        if ((rc == 0) && do_notifiers
+            && ((old_value != new_value)
+                || (traitd->flags & TRAIT_COMPARISON_MODE_NONE))) {
             rc = call_notifiers(
                 tnotifiers, onotifiers, obj, name, old_value, new_value);
         }
